@@ -6,6 +6,9 @@ import os
 V = os.path.dirname(os.path.dirname(os.path.abspath(__file__)))
 
 CHECKS = {
+    "C10": dict(cat="model_checking", ref="§3.4, §4 C10", tech="TLA+ Promise.tla: exhaustive model check of the design (explore mode) + the same module as oracle (TLC evaluates generated promise programs; goja must produce the same event log)",
+                text="Promise.tla specifies promise records, resolving functions with their shared alreadyResolved latch, reaction lists, PromiseReactionJob / PromiseResolveThenableJob, the FIFO job queue drained before control returns to Go, then / finally (thenFinally / catchFinally closures) / all / allSettled / any / race with their element functions, and HostPromiseRejectionTracker. In explore mode TLC visits every state reachable with 4-5 script operations over 4-5 promises and checks SettledStable, NoReactionsWhenSettled, LatchMonotone, TrackOK (reject before handle, each once) and QueueEmptyAtReturn. In oracle mode TLC evaluates seeded random programs (resolve with values / promises / itself / five thenable shapes, handlers that return, throw, return promises or thenables or settle other promises, combinators, Go-side NewPromise resolvers called between runs) and goja must log the same handler calls with the same arguments in the same order, the same thenable calls and tracker notifications, an empty queue at every return to Go and the same final states.",
+                note="Trusts TLC, the printer lib/pmgen.py and the driver harness/cmd/pmrun. Async functions (await) are covered through the VM trace checks (C03/C15 scenarios), not by this module; jobs dropped by an interrupt are checked in C15."),
     "C15": dict(cat="model_checking", ref="§3.2, §4 C15", tech="TLA+ Interrupt.tla (two-goroutine protocol, safety + liveness) model-checked by TLC; engine executions with interrupts at every probe point / while idle / asynchronously under the race detector validated against VMTrace.tla",
                 text="Interrupt.tla models Interrupt() as lock / write value / store flag / unlock, ClearInterrupt as a lone atomic store, and the VM goroutine (poll before every instruction, native stretches without polls, error construction under the lock, nested exits that keep the flag, leaveAbrupt at the outermost exit, job drain); TLC checks Prompt (<= 1 instruction after the flag is visible), CarriesSetValue, IdleClean, NestedKeepsFlag and the liveness property Stops over all interleavings, and must reject the poll-every-3rd-instruction mutation (vacuity control). The engine is then driven with Interrupt(v) at every probe point of generated and hand-written programs (generators, async functions, promise jobs, getters, comparator/iterator callbacks, proxies, nested RunProgram and Go->JS calls), with and without a preceding idle Interrupt+ClearInterrupt, with Interrupt while idle, and from a second goroutine at random delays in a -race build; every execution's event trace must be a behaviour of VMTrace.tla (IntSeen only after IntSet, only uncatchable unwinding afterwards, no catch/finally/iterator close, IntLate <= 1, flag and queue cleared exactly at the outermost exit) and each run must return InterruptedError carrying v, log nothing after the interrupt and leave a reusable Runtime.",
                 note="Trusts TLC, the hooks (a52bad1, f340b8d), the Go race detector as the data-race oracle, and the vmtrace driver. Asynchronous positions are sampled, not enumerated."),
